@@ -179,21 +179,21 @@ func RunChecker(l *Loaded, ex *Exec, ch sched.Chooser) (*Outcome, *ExecStats, er
 	out := NewOutcome()
 	for _, act := range order {
 		if act.task.Panic != nil {
-			out.Errors[act.pkg.Path] = append(out.Errors[act.pkg.Path], fmt.Sprintf("%s: panic: %v", act.a.Name, act.task.Panic))
+			out.Errors[act.pkg.ID] = append(out.Errors[act.pkg.ID], fmt.Sprintf("%s: panic: %v", act.a.Name, act.task.Panic))
 			continue
 		}
 		if !act.isRoot {
 			continue
 		}
-		if _, ok := out.Diags[act.pkg.Path]; !ok {
-			out.Diags[act.pkg.Path] = nil
+		if _, ok := out.Diags[act.pkg.ID]; !ok {
+			out.Diags[act.pkg.ID] = nil
 		}
 		if act.err != nil {
-			out.Errors[act.pkg.Path] = append(out.Errors[act.pkg.Path], fmt.Sprintf("%s: %v", act.a.Name, act.err))
+			out.Errors[act.pkg.ID] = append(out.Errors[act.pkg.ID], fmt.Sprintf("%s: %v", act.a.Name, act.err))
 		}
 		for _, d := range act.diags {
 			pos := l.Fset.Position(d.Pos)
-			out.Diags[act.pkg.Path] = append(out.Diags[act.pkg.Path], Diag{act.a.Name, strings.TrimPrefix(pos.Filename, simRoot), pos.Line, pos.Column, d.Message})
+			out.Diags[act.pkg.ID] = append(out.Diags[act.pkg.ID], Diag{act.a.Name, strings.TrimPrefix(pos.Filename, simRoot), pos.Line, pos.Column, d.Message})
 			out.Actions = append(out.Actions, act.String())
 			out.RawDiags = append(out.RawDiags, Diag{act.a.Name, strings.TrimPrefix(pos.Filename, simRoot), pos.Line, pos.Column, d.Message})
 		}
